@@ -112,27 +112,38 @@ def escSq : Text → Text
   | [] => []
   | c :: cs => if c = '\'' then '\'' :: '\'' :: escSq cs else c :: escSq cs
 
-def fmtStr (s : Str) : Text :=
+/-- does the printer lower-case keyword-like unquoted strings at this position?  `inKey` = printer.inKey (key paths,
+    edge ends, edge keys).  The regenerated flag says whether the lower-casing is restricted to key position. -/
+def lowersHere (inKey : Bool) : Bool := inKey || !FmtKw.lowerOnlyInKey
+
+def fmtStr (inKey : Bool) (s : Str) : Text :=
   match s.q with
-  | .u => lowerKw s.raw
+  | .u => if lowersHere inKey then lowerKw s.raw else s.raw
   | .d => '"' :: (s.raw ++ ['"'])
   | .s => '\'' :: (escSq s.val ++ ['\''])
 
-def fmtPath : Path → Text
+def fmtPath (inKey : Bool) : Path → Text
   | [] => []
-  | [s] => fmtStr s
-  | s :: rest => fmtStr s ++ '.' :: fmtPath rest
+  | [s] => fmtStr inKey s
+  | s :: rest => fmtStr inKey s ++ '.' :: fmtPath inKey rest
 
 def spreadDots (sp : Bool) : Text := if sp then ['.', '.', '.'] else []
 
-def fmtSub (sp : Bool) (p : Path) : Text := spreadDots sp ++ '$' :: '{' :: (fmtPath p ++ ['}'])
+def fmtSub (sp : Bool) (p : Path) : Text := spreadDots sp ++ '$' :: '{' :: (fmtPath false p ++ ['}'])
 
-/-- `_import`: `pre` is empty in the fragment; the first segment is rebuilt as an unquoted string of its value -/
+/-- d2ast.RawString(value, inKey = true) on the simple names of the fragment: unquoted, or double-quoted when the
+    name is a reserved keyword only up to letter case (so that the printer does not lower-case it) -/
+def impHead (s : Str) : Str :=
+  if FmtKw.rawStringQuotesKeywordCase && lower s.val != s.val && isReserved (lower s.val)
+  then { q := .d, raw := s.val, val := s.val }
+  else { q := .u, raw := s.val, val := s.val }
+
+/-- `_import`: `pre` is empty in the fragment; the first segment is rebuilt with RawString from its value -/
 def impPath : Path → Path
   | [] => []
-  | s :: rest => { q := .u, raw := s.val, val := s.val } :: rest
+  | s :: rest => impHead s :: rest
 
-def fmtImp (sp : Bool) (p : Path) : Text := spreadDots sp ++ '@' :: fmtPath (impPath p)
+def fmtImp (sp : Bool) (p : Path) : Text := spreadDots sp ++ '@' :: fmtPath false (impPath p)
 
 def fmtScalar : Scalar → Text
   | .null => ['n', 'u', 'l', 'l']
@@ -141,12 +152,12 @@ def fmtScalar : Scalar → Text
   | .bool true => ['t', 'r', 'u', 'e']
   | .bool false => ['f', 'a', 'l', 's', 'e']
   | .num raw => raw
-  | .str s => fmtStr s
+  | .str s => fmtStr false s
 
 def fmtArrowDst (h : Hop) : Text :=
   (if h.sa = [] then ['-'] else h.sa) ++
   (if h.da = [] then ['-'] else (if h.sa = [] then [] else ['-']) ++ h.da) ++
-  ' ' :: fmtPath h.dst
+  ' ' :: fmtPath true h.dst
 
 def fmtHops : List Hop → Text
   | [] => []
@@ -160,7 +171,7 @@ def fmtEIdx : EIdx → Text
 
 def optPath : Option Path → Text
   | none => []
-  | some p => fmtPath p
+  | some p => fmtPath true p
 
 def fmtHead (h : KeyHead) : Text :=
   (if h.amp = 1 then ['&'] else if h.amp = 2 then ['!', '&'] else []) ++
@@ -169,11 +180,11 @@ def fmtHead (h : KeyHead) : Text :=
     let paren := h.key.isSome || h.eidx != .none || h.ekey.isSome
     (if h.key.isSome then ['.'] else []) ++
     (if paren then ['('] else []) ++
-    (match h.src with | some p => fmtPath p ++ [' '] | none => []) ++
+    (match h.src with | some p => fmtPath true p ++ [' '] | none => []) ++
     fmtHops h.hops ++
     (if paren then [')'] else []) ++
     fmtEIdx h.eidx ++
-    (match h.ekey with | some p => '.' :: fmtPath p | none => []))
+    (match h.ekey with | some p => '.' :: fmtPath true p | none => []))
 
 def boardName (s : Text) : Bool := FmtKw.isBoardNodeLabels.contains s
 
@@ -277,21 +288,22 @@ def fmtFile : N → Text
 
 def hasNL (t : Text) : Bool := t.any (· == '\n')
 
-def normStr (s : Str) : Str :=
+def normStr (inKey : Bool) (s : Str) : Str :=
   match s.q with
-  | .u => if isReserved (lower s.raw) then { q := .u, raw := lower s.raw, val := lower s.raw } else s
+  | .u => if lowersHere inKey && isReserved (lower s.raw) then { q := .u, raw := lower s.raw, val := lower s.raw } else s
   | _ => s
 
-def normPath (p : Path) : Path := p.map normStr
+def normPath (inKey : Bool) (p : Path) : Path := p.map (normStr inKey)
 
 def normScalar : Scalar → Scalar
-  | .str s => .str (normStr s)
+  | .str s => .str (normStr false s)
   | s => s
 
-def normHop (h : Hop) : Hop := { h with dst := normPath h.dst }
+def normHop (h : Hop) : Hop := { h with dst := normPath true h.dst }
 
 def normHead (h : KeyHead) : KeyHead :=
-  { h with key := h.key.map normPath, src := h.src.map normPath, hops := h.hops.map normHop, ekey := h.ekey.map normPath }
+  { h with key := h.key.map (normPath true), src := h.src.map (normPath true), hops := h.hops.map normHop,
+           ekey := h.ekey.map (normPath true) }
 
 /-- a key whose value was dropped keeps its primary as the value -/
 def mkKey (h : KeyHead) (prim : Option Scalar) (val : N) : N :=
@@ -304,8 +316,8 @@ mutual
   def normL (ind : Nat) : N → N
     | .absent => .absent
     | .scalar s => .scalar (normScalar s)
-    | .sub sp p => .sub sp (normPath p)
-    | .imp sp p => .imp sp (normPath (impPath p))
+    | .sub sp p => .sub sp (normPath false p)
+    | .imp sp p => .imp sp (normPath false (impPath p))
     | .arr one items =>
         .arr (!hasNL (fmtV ind (.arr one items))) (normItems (if one then ind else ind + 1) one true items)
     | .map one nodes =>
@@ -375,8 +387,8 @@ mutual
   def lowerKeywords : N → N
     | .absent => .absent
     | .scalar s => .scalar (normScalar s)
-    | .sub sp p => .sub sp (normPath p)
-    | .imp sp p => .imp sp (normPath (impPath p))
+    | .sub sp p => .sub sp (normPath false p)
+    | .imp sp p => .imp sp (normPath false (impPath p))
     | .arr one items => .arr one (lowerKeywordsL items)
     | .map one nodes => .map one (lowerKeywordsL nodes)
     | .item b v => .item b (lowerKeywords v)
